@@ -30,6 +30,9 @@ package timers
 //@   ensures [does_not_fire_early] !old(et.done) && old(et.nextTickAt) > curr ==> !et.done
 //@   ensures [stays_done_until_reset] old(et.done) ==> et.done
 //@   ensures [schedule_unchanged] et.nextTickAt == old(et.nextTickAt)
+//@   loop 2 invariant forall p *deltaHandler :: old(p.done) ==> p.done
+//@   loop 2 invariant forall k int :: 0 <= k && k <= rangeindex ==> et.deltaHandlers[k] != nil ==> (old(et.deltaHandlers[k].nextTickAt) <= curr ==> et.deltaHandlers[k].done)
+//@   ensures [every_due_sub_epoch_tick_has_fired] !old(et.done) ==> (forall k int :: 0 <= k && k < len(et.deltaHandlers) ==> et.deltaHandlers[k] != nil ==> (old(et.deltaHandlers[k].nextTickAt) <= curr ==> et.deltaHandlers[k].done))
 
 //@ func (*EpochTimers).Reset
 //@   property C40
